@@ -17,8 +17,10 @@ THEOREMS = ["EngineModel.Properties.C04." + t for t in [
 ASSUMPTIONS = [
     "payload level: compressed bytes are not compared (the harness recovers the payload of the re-encoded blob with "
     "zlib's own uncompress)",
-    "track.update(snapshot) rebuilds all blobs by design and is out of scope; the read-modify-write setters of "
-    "track_impl.cpp are covered by the tie only in so far as they go through from_blob/to_blob (no separate frame theorem)",
+    "track.update(snapshot) rebuilds all blobs by design and is out of scope",
+    "the setter-frame theorems are about applySetter of the 2.x track lens model (EngineModel/TracksV2/Lens.lean, owned "
+    "by the tracks-v2 package; its agreement with track_impl is the C06 tie) related to stored bytes through the Spec "
+    "encoders; the setter-frame stream checks the real library directly (planted foreign blobs, raw read-back)",
 ]
 MANIFEST = dict(
     text="Lean theorems for the five 2.x codecs and every byte string: if the Model decoder accepts b as (v, extra) then "
@@ -28,8 +30,16 @@ MANIFEST = dict(
          "theorems. Tie: foreign payloads (arbitrary counts, flag values, unknown fields, trailing bytes), boundary "
          "payloads and mutated valid payloads go through the real from_blob -> to_blob (sanitizer build) and through "
          "the Model; outputs must be equal, and the direct oracle compares the library's re-encoded payload with the "
-         "input byte for byte (modulo the one flag byte, located by an independent parser).",
-    note="Setter frame (set_* on planted BLOB columns) is not a theorem here; the re-encode law it rests on is.",
+         "input byte for byte (modulo the one flag byte, located by an independent parser). Setter frame: for each of "
+         "the nine read-modify-write setters of the 2.x track (hot_cue_at, loop_at, main_cue, hot_cues, "
+         "average_loudness, key, sample_count, sample_rate, beatgrid) a theorem over the 2.x track lens model states "
+         "that every other BLOB column's payload is byte-identical and that in the named column only the byte range of "
+         "the named field differs (slot setters: pre ++ entry ++ post with the same pre/post; scalar fields: "
+         "AgreeOutside a b); tied by planting foreign blobs (0..12 entries, labelled/coloured empty slots, odd flags, "
+         "trailing bytes) into the five BLOB columns of real 2.x tracks through the raw connection, calling every "
+         "setter through the public API and reading the columns back raw (independent inflate + Spec decode).",
+    note="set_loops / set_waveform rebuild their column and drop foreign extra_data: known finding with _counterexample "
+         "theorems. Compressed bytes are never compared.",
     technique="Lean 4 theorems (generic Exact law of codec combinators) + byte-exact differential run on foreign blobs",
     ref="6/C04")
 TRUSTED_EXTRA = []
@@ -299,6 +309,12 @@ def setter_frame_stream(ctx, rng, hist, divergences, violations):
             L += ["set ta %s %s" % (f, v), READ]
         scripts.append(L)
         meta.append(steps)
+    n, d = judge_frames(scripts, meta, hist, violations)
+    return n, d
+
+
+def judge_frames(scripts, meta, hist, violations):
+    """run the scripts on the real library and apply the frame oracle to every setter step"""
     res = runner.run_harness(scripts, stateless=False, watchdog=30)
     # collect the payloads of every read; Spec-decode the changed ones in one batch
     def parse_read(o):
@@ -365,6 +381,41 @@ def setter_frame_stream(ctx, rng, hist, divergences, violations):
             "kind": "script", "what": "set_%s altered bytes of column %s outside the field it names: %s" % (f, c, br)},
             "body": replay + ["before: " + cd.hexb(old)[:600], "after:  " + cd.hexb(new)[:600]]})
     return sum(len(L) for L in scripts) + len(sdec), len(distinct)
+
+
+def replay(ctx, hdr, body):
+    """script replays (setter frame) run on the real library only and are judged by the frame oracle;
+    byte-string replays run the recorded line on library and Model."""
+    import re
+    lines = [l for l in body if not re.match(r"^[A-Za-z_()0-9 ]{1,20}: ", l)]
+    if hdr.get("kind") == "script":
+        steps = []
+        for i, l in enumerate(lines):
+            t = l.split(" ", 3)
+            if t[0] == "set" and i + 1 < len(lines) and lines[i + 1] == READ:
+                steps.append((i, t[2], t[3] if len(t) > 3 else ""))
+        viol, hist = [], {}
+        judge_frames([lines], [steps], hist, viol)
+        unknown = [v for v in viol if v["signature"] is None]
+        txt = "\n".join(["%d setter steps judged on the working tree" % len(steps)] +
+                        ["  %s" % v["header"]["what"] for v in viol] +
+                        ["recorded verdict: %s" % hdr.get("what", "(none)")])
+        return (not unknown), txt
+    hout, _ = runner.run_harness_script(lines, stateless=True)
+    mout = runner.run_model_script(lines)
+    ok, out = True, []
+    for l, h, m in zip(lines, hout, mout):
+        good = h == m
+        if l.startswith("reenc") and h.startswith("ok"):
+            k, px = l.split()[1], l.split()[2]
+            pb = b"" if px == "-" else bytes.fromhex(px)
+            t = h.split()
+            got = b"" if len(t) < 2 or t[1] == "-" else (None if t[1] == "UNFRAMED" else bytes.fromhex(t[1]))
+            good = good and got == norm_bool(k, pb)
+        ok = ok and good
+        out.append("%s\n   impl:  %s\n   model: %s%s" % (l[:300], h[:300], m[:300], "" if good else "   <-- violates"))
+    out.append("recorded verdict: %s" % hdr.get("what", "(none)"))
+    return ok, "\n".join(out)
 
 
 def tie(ctx):
